@@ -442,6 +442,8 @@ def run_one(payload):
         k.clock_offset = c.get('clock0', 0.0)
         k.rng_objects = _find_rng_objects()
         k.rng_finder = _find_rng_objects
+        # module-level variables of the Monte-Carlo package are per process (lazily created clients, generators, counters, caches)
+        k.virtual_modules = [mod_ for n_, mod_ in sorted(sys.modules.items()) if n_.startswith('geophires_monte_carlo') and mod_ is not None]
         if 'stale_lock' in c:
             sl = c['stale_lock']
             pid = 777 if sl['pid'] == 'live' else 778
